@@ -208,6 +208,12 @@ func (w *Wallet) txToOutputs(outputs []*wire.TxOut,
 						"not eligible for "+
 						"spending: %v", outpoint)
 				}
+
+				// An outpoint can only be spent once by the
+				// transaction, so a repeated selection must
+				// not be counted as a second input.
+				delete(eligibleByOutpoint, outpoint)
+
 				eligibleSelectedUtxo = append(
 					eligibleSelectedUtxo, e,
 				)
